@@ -790,10 +790,10 @@ func readAllScripted(body io.Reader, sizes []int) ([]byte, error) {
 	var out []byte
 	for i := 0; ; i++ {
 		n := sizes[i%len(sizes)]
-		if n <= 0 {
+		if n < 0 {
 			n = 4096
 		}
-		buf := make([]byte, n)
+		buf := make([]byte, n) // (0: a zero-length Read, which an io.Reader answers with 0, nil and no side effect)
 		got, err := body.Read(buf)
 		out = append(out, buf[:got]...)
 		if err != nil {
@@ -1130,6 +1130,8 @@ func (rn *run) serveBackend(kind string, w http.ResponseWriter, req *http.Reques
 					herr = 3
 				case f.Flags >= 0 && f.Flags&^1 != 0:
 					herr = 13
+				case f.Flags >= 0 && f.Flags&1 != 0 && d.Enc == "":
+					herr = 13 // compressed flag on a request that declares no compression (gRPC: INTERNAL)
 				}
 			}
 		}
